@@ -198,7 +198,7 @@ func workerMain(t *testing.T) {
 		}
 		if v != nil {
 			if v.Rule == "harness.panic" {
-				fmt.Fprintf(os.Stderr, "harness panic in run j=%d seed=%d: %s\n", j, seed, v.Detail)
+				fmt.Fprintf(os.Stderr, "HARNESS-PANIC in run j=%d seed=%d: %s\n", j, seed, v.Detail)
 				os.Exit(2)
 			}
 			if k := matchKnown(known, v); k != nil {
@@ -392,7 +392,7 @@ func runnerMain(t *testing.T) {
 				if ee, ok := err.(*exec.ExitError); ok {
 					code = ee.ExitCode()
 				}
-				if code == 2 && !hang && !strings.Contains(se.String(), "fatal error") && !strings.Contains(se.String(), "goroutine ") {
+				if strings.Contains(se.String(), "HARNESS-PANIC") || (code == 2 && !hang && !strings.Contains(se.String(), "fatal error") && !strings.Contains(se.String(), "goroutine ")) {
 					fmt.Fprintf(os.Stderr, "harness error in worker %d:\n%s\n", i, tail(se.String(), 4000))
 					mu.Lock()
 					harnessErr = true
@@ -427,6 +427,7 @@ func runnerMain(t *testing.T) {
 	total := &workerStats{Probes: map[string]int{}, Faults: map[string]int{}, Known: map[string]int{}}
 	sigset := map[uint64]bool{}
 	var viols []*Trace
+	incidentalFatal := 0
 	for i := range results {
 		if results[i].stats != nil {
 			mergeStats(total, results[i].stats)
@@ -442,7 +443,10 @@ func runnerMain(t *testing.T) {
 			tr := &Trace{Prop: pid, Seed: runSeed(uint64(seed), pid, j), Tier: tier, Mode: "generate", Viol: v}
 			if !p.OwnsCrash {
 				total.IncPanics++
-				fmt.Printf("NOTE: property=%s run j=%d seed=%d killed the worker (%s); crash-freedom is decided by C13, counted as incidental\n", pid, j, tr.Seed, v.Shape["kind"])
+				incidentalFatal++
+				if incidentalFatal <= 3 {
+					fmt.Printf("NOTE: property=%s run j=%d seed=%d killed the worker (%s); crash-freedom is decided by C13, counted as incidental\n", pid, j, tr.Seed, v.Shape["kind"])
+				}
 				continue
 			}
 			if k := matchKnown(known, v); k != nil {
